@@ -662,6 +662,42 @@ def _param_names(t):
     return out
 
 
+def _str_identity(p):
+    """str(x) is x when x is a str: on a path that establishes type(x) == str, what was learnt
+    about the rendering str(x) (taken before the type test, for error messages) is knowledge
+    about x itself"""
+    facts = p.state.facts
+    cands = set()
+    for f in facts:
+        for t in _str_calls(f):
+            cands.add(t)
+    if not cands:
+        return
+    mp = {}
+    for t in cands:
+        ts = p.state.types(t[2][0])
+        if ts is not None and ts <= {"str"}:
+            mp[t] = t[2][0]
+    if not mp:
+        return
+    p.state.facts = set(subst(f, mp) for f in facts)
+    p.state._cl = None
+    if p.kind == "return":
+        p.value = subst(p.value, mp)
+
+
+def _str_calls(t):
+    if isinstance(t, tuple):
+        if len(t) == 4 and t[0] == "call" and t[1] == "builtin:str" and len(t[2]) == 1 and not t[3] and isinstance(t[2][0], tuple) and t[2][0] and t[2][0][0] in ("param", "sub"):
+            yield t
+        for x in t:
+            if isinstance(x, (tuple, frozenset)):
+                yield from _str_calls(x)
+    elif isinstance(t, frozenset):
+        for x in t:
+            yield from _str_calls(x)
+
+
 def _structural_recursion(fi):
     """every call of the function to itself passes, as its only argument, an item of the
     function's own (single) parameter: a loop / comprehension variable ranging over the parameter
@@ -771,6 +807,8 @@ def build_summary(eng, fi, clsbind, inline=frozenset(), funargs=()):
     w = Walker(eng, fi, clsbind, inline)
     w.funargs = dict(funargs)
     paths = w.run()
+    for p_ in paths:
+        _str_identity(p_)
     sm = Summary(fi, clsbind)
     sm.paths = paths
     sm.params = fi.params()
